@@ -64,6 +64,7 @@ fn required(plan: &Plan) -> Vec<String> {
         v.push(format!("exhaustive:{e}"));
     }
     v.push("residue:stack-index-spilled".into());
+    v.push("stack-clear:merged-without-copies".into());
     v
 }
 
@@ -73,7 +74,8 @@ pub fn run<E: Entry>(ctx: &mut Ctx) {
     }
     let h = ctx.hist_no;
     let kind = kind_for(h);
-    let n1 = ctx.rng.range(1, if ctx.tier == Tier::Miri { 5 } else { 30 });
+    // n1 == 0: clear() right after creation / merge_regions, before anything was pushed
+    let n1 = if h % 8 == 7 { 0 } else { ctx.rng.range(1, if ctx.tier == Tier::Miri { 5 } else { 30 }) };
     let pool: Vec<E::V> = <E::V as Val>::gen_run(&mut ctx.rng, Dom::new(kind), n1 + 4);
     // the object starts either as a default region or as a trained / pre-sized one
     let trained = (h / 3) % 2 == 1;
@@ -103,10 +105,14 @@ pub fn run<E: Entry>(ctx: &mut Ctx) {
         }
         let mut t = Live::<E>::new("fresh");
         ctx.log("fresh = Default::default()".into());
-        // H2 starts with the item most likely to betray residue: the last item of H1
+        // H2 starts with the item most likely to betray residue: the last item of H1; for coded
+        // regions also values the earlier statistics never saw (a fresh region accepts anything)
+        let foreign: Vec<E::V> = <E::V as Val>::gen_run(&mut ctx.rng, Dom::new(Kind::Hostile), 4);
         let n2 = ctx.rng.range(1, 12);
         for k in 0..n2 {
-            let v = if k == 0 && last.is_some() && ctx.rng.chance(3, 4) {
+            let v = if E::coded() && k % 3 == 1 {
+                foreign[k % foreign.len()].clone()
+            } else if k == 0 && last.is_some() && ctx.rng.chance(3, 4) {
                 if E::collapse_top() {
                     ctx.cover(&format!("residue:pending-equal:{}", E::label()));
                 }
@@ -180,11 +186,34 @@ pub fn run_stack<E: Entry, S: IdxC<Idx<E>>>(ctx: &mut Ctx) {
     let n1 = ctx.rng.range(1, 40);
     let pool: Vec<E::V> = <E::V as Val>::gen_run(&mut ctx.rng, Dom::new(kind), n1 + 4);
     let nforms = E::form_names().len();
-    let mut a = LiveStack::<E, S>::new("fs");
-    ctx.log(format!("fs = FlatStack<{}, {}>::default()", E::label(), S::KIND));
-    let cycles = ctx.rng.range(1, 4);
-    'outer: for _ in 0..cycles {
+    // every fourth history starts from merge_capacity over a populated stack and clears it before
+    // anything was copied: the stack is "empty" but its region is not fresh
+    let merged_start = ctx.hist_no % 4 == 3;
+    let mut a = if merged_start {
+        let mut src = LiveStack::<E, S>::new("src");
         for k in 0..n1 {
+            if !src.copy(ctx, &pool[k % pool.len()], 0) {
+                ctx.end_history();
+                return;
+            }
+        }
+        ctx.log(format!("fs = FlatStack<{}, {}>::merge_capacity([src])", E::label(), S::KIND));
+        match panics::catch(|| Stack::<E, S>::merge_capacity(std::iter::once(&src.fs))) {
+            Ok(f) => LiveStack::from_stack("fs", f),
+            Err(p) => {
+                ctx.fail_panic("merge_capacity", &p);
+                ctx.end_history();
+                return;
+            }
+        }
+    } else {
+        ctx.log(format!("fs = FlatStack<{}, {}>::default()", E::label(), S::KIND));
+        LiveStack::<E, S>::new("fs")
+    };
+    let foreign: Vec<E::V> = <E::V as Val>::gen_run(&mut ctx.rng, Dom::new(Kind::Hostile), 4);
+    let cycles = ctx.rng.range(1, 4);
+    'outer: for cycle in 0..cycles {
+        for k in 0..(if merged_start && cycle == 0 { 0 } else { n1 }) {
             if !{ let f__ = ctx.rng.below(nforms); a.copy(ctx, &pool[k % pool.len()], f__) } {
                 break 'outer;
             }
@@ -202,6 +231,9 @@ pub fn run_stack<E: Entry, S: IdxC<Idx<E>>>(ctx: &mut Ctx) {
             break;
         }
         ctx.log("fs.clear()".into());
+        if merged_start && cycle == 0 {
+            ctx.cover("stack-clear:merged-without-copies");
+        }
         a.model.clear();
         if a.fs.len() != 0 || !a.fs.is_empty() {
             ctx.fail("stack-not-empty", format!("after clear() the stack reports len {} / is_empty {}", a.fs.len(), a.fs.is_empty()));
@@ -209,8 +241,9 @@ pub fn run_stack<E: Entry, S: IdxC<Idx<E>>>(ctx: &mut Ctx) {
         }
         let mut t = LiveStack::<E, S>::new("fresh");
         let n2 = ctx.rng.range(1, 12);
-        for _ in 0..n2 {
-            let v = pool[ctx.rng.below(pool.len())].clone();
+        for k2 in 0..n2 {
+            // a cleared stack is a fresh one: it also accepts what earlier statistics never saw
+            let v = if k2 % 3 == 1 { foreign[k2 % foreign.len()].clone() } else { pool[ctx.rng.below(pool.len())].clone() };
             let form = ctx.rng.below(nforms);
             if !a.copy(ctx, &v, form) || !t.copy(ctx, &v, form) {
                 break 'outer;
